@@ -149,6 +149,11 @@ def run_instance(modname, tier, idx, seed, nwit):
                     raise core.HarnessError(
                         f"concrete run fails on a witness the solver passed: {w['values']} -> {rep}")
                 continue
+            if w.get("tags", {}).get("set_order_choice"):
+                # the path picked one member of a set among several the real code may pick by hash order (both are explored):
+                # the concrete run must pass, its observations need not be those of this particular pick
+                validated += 1
+                continue
             if not core.same_observations([list(x) for x in w["observations"]], [list(x) for x in rep["observations"]]):
                 raise core.HarnessError(
                     "symbolic/concrete mismatch on witness %r: symbolic %r vs concrete %r"
